@@ -34,6 +34,11 @@ func (k msgServer) CreateDappProposal(goCtx context.Context, msg *types.MsgCreat
 		return nil, types.ErrDappDoesNotExist
 	}
 
+	// the bond-free creation permission skips the minimum, it must not admit a negative bond
+	if msg.Bond.Amount.IsNil() || msg.Bond.Amount.IsNegative() {
+		return nil, types.ErrLowAmountToCreateDappProposal
+	}
+
 	// permission check PermCreateDappProposalWithoutBond
 	isAllowed := k.keeper.CheckIfAllowedPermission(ctx, addr, govtypes.PermCreateDappProposalWithoutBond)
 	if !isAllowed {
